@@ -55,7 +55,7 @@ MCNext ==
      /\ \E keep \in BOOLEAN :
           /\ Crash(keep)
           /\ H([a |-> "crash", at |-> pc.k, during |-> pc.after, i |-> pc.i, sub |-> pc.sub, keep |-> keep,
-                 written |-> SetToSortSeq(pc.orig \ pc.todo, <), hdr |-> FALSE])
+                 written |-> SetToSortSeq(pc.orig \ pc.todo, <), orig |-> SetToSortSeq(pc.orig, <), hdr |-> FALSE])
      /\ Bump("cr")
   \/ /\ Recover /\ H([a |-> "recover"]) /\ UNCHANGED cnt
 
